@@ -3,6 +3,7 @@
    the per-site misc list).  Only statements, `exact`, and Print Assumptions.
    [uw] is the regex crate's `\w` on code points >= 128 (third-party table, arbitrary here). *)
 From Adb Require Import Base BaseProofs C17_Model C17_Proofs.
+From Adb Require Generated.
 From Coq Require Import Permutation.
 
 (* key_from_selector (two regex passes + re-scan of the match) computes the CSS unescaping of the
@@ -85,3 +86,15 @@ Theorem C17_reach_by_key : forall uw G s k,
   In s (hidden (build uw G) [tl k] [tl k] []) /\ ~ In s (misc (build uw G)).
 Proof. exact reach_lookup. Qed.
 Print Assumptions C17_reach_by_key.
+
+(* translator tie: the three regular expressions, the radix and the prefix tests in the source are
+   the ones C17_Model.v transcribes *)
+Theorem C17_regexes_as_modelled :
+  Generated.c17_re_plain_selector = "^[#.][\w\\-]+"%string /\
+  Generated.c17_re_plain_selector_escaped = "^[#.](?:\\[0-9A-Fa-f]+ |\\.|\w|-)+"%string /\
+  Generated.c17_re_escape_sequence = "\\([0-9A-Fa-f]+ |.)"%string /\
+  Generated.c17_escape_radix = 16%N /\
+  Generated.c17_regex_use_order = ["RE_PLAIN_SELECTOR"; "RE_PLAIN_SELECTOR_ESCAPED"; "RE_ESCAPE_SEQUENCE"]%string /\
+  Generated.c17_store_prefixes = ["."; "#"]%string.
+Proof. exact regexes_as_modelled. Qed.
+Print Assumptions C17_regexes_as_modelled.
